@@ -62,7 +62,16 @@ def layout(out, ed):
     garb = None
     sent = {}
     incs = []
+    brk = {}
+    joins = set()
+    case = 0
     for j, e in enumerate(ed, 1):
+        if e["t"] == "brk":
+            brk[e["pos"]] = (e["a"], e["b"])
+        elif e["t"] == "join":
+            joins.add(e["pos"])
+        elif e["t"] == "case":
+            case = e["a"]
         t = e["t"]
         if t == "cmt":
             if e["a"] == 1:
@@ -109,13 +118,74 @@ def layout(out, ed):
                 phys.append((i, "!$ " + ind + "  & " + sp[1]))
             else:
                 phys.append((i, "!$ " + ind + render.stmt_line(s, indent=False)))
+        elif i in brk:
+            where, var = brk[i]
+            parts = split_at(s, where)
+            first = ind + parts[0] + (" &" if var != 0 or True else "&")
+            if var == 2:
+                first += " ! c'mt &"
+            phys.append((i, first))
+            if var == 3:
+                phys.append((i, ""))
+            if var in (4, 5):
+                phys.append((i, ind + "  ! between \"lines\" &"))
+            phys.append((i, ind + ("    & " if var in (1, 5) else "      ") + parts[1]))
         else:
             line = ind + render.stmt_line(s, indent=False)
             if i in trail:
                 line += "  " + trail[i][1]
-            phys.append((i, line))
+            if (i - 1) in joins and phys:
+                # joined to the previous statement with `;`
+                pi, pl = phys[-1]
+                phys[-1] = (i, pl + "; " + render.stmt_line(s, indent=False))
+            else:
+                phys.append((i, line))
         last_line[i] = len(phys)
+    if case:
+        phys = [(i, recase(l, case)) for i, l in phys]
     return {"phys": phys, "last_line": last_line, "stmts": stmts, "incs": incs}
+
+
+def recase(line, style):
+    """Change letter case outside character literals and comments (style 1 upper, 2 capitalised words)."""
+    out = []
+    q = None
+    incmt = False
+    word_start = True
+    for ch in line:
+        if incmt:
+            out.append(ch)
+            continue
+        if q:
+            out.append(ch)
+            if ch == q:
+                q = None
+            continue
+        if ch in "'\"":
+            q = ch
+            out.append(ch)
+            word_start = True
+            continue
+        if ch == "!":
+            incmt = True
+            out.append(ch)
+            continue
+        if ch.isalpha():
+            out.append(ch.upper() if (style == 1 or word_start) else ch.lower())
+            word_start = False
+        else:
+            out.append(ch)
+            word_start = not (ch.isdigit() or ch == "_")
+    return "".join(out)
+
+
+def split_at(s, where):
+    """Split a statement line at a token boundary about where/4 of the way through."""
+    lab = ("%d " % s["label"]) if s["label"] else ""
+    cn = (s["cname"] + ": ") if s["cname"] else ""
+    toks = layout_tokens(s["text"])
+    k = max(1, min(len(toks) - 1, (len(toks) * where) // 4))
+    return lab + cn + join_tokens(toks[:k]), join_tokens(toks[k:])
 
 
 def render_stmts(out):
